@@ -34,6 +34,8 @@ DIRECTED = [
     ".i { color: #777 !important; color: #888 }\n",
     ":root { --Muted: #cccccc; --muted: #333333; --Accent: #777777; --accent: #111111 }\n.note { color: var(--Muted) }\n.link { color: var(--Accent); background-color: #fff }\n",
     "@supports (display: grid) { @media (min-width: 1px) { .hint { color: #777777; background-color: #ffffff } } }\n",
+    ":root { --ink: #333333; --muted: #595959 }\n@media (min-width: 600px) { :root { --muted: #999999 } }\n.card { color: var(--ink); background-color: #fff }\n.hint { color: var(--muted); background-color: #fff }\n",
+    ".banner { color: #000; background-color: #fff; color: #999 }\n.note { color: #999; background-color: #fff; color: #111 }\n",
 ]
 
 
